@@ -772,6 +772,56 @@ func platformOptions(w *sched.W) {
 		{"transport-pty-width", "120", "args.TermWidth", "120", "", options.WithTermWidth(121), "121"},
 		{"transport-system-open-args", "['-o', 'KexAlgorithms=+x']", "impl.ExtraArgs", `["-o" "KexAlgorithms=+x"]`, "", options.WithSystemTransportOpenArgs([]string{"-v"}), `["-o" "KexAlgorithms=+x" "-v"]`},
 	}
+	// all options in one block, in every rotation of their order: each still lands on its own setting
+	var uniq []popt
+	seenName := map[string]bool{}
+	for _, p := range list {
+		if !seenName[p.name] && p.key != "" && p.name != "transport-type" { // (another transport type has no system open-args)
+			seenName[p.name] = true
+			uniq = append(uniq, p)
+		}
+	}
+	for rot := 0; rot < len(uniq); rot++ {
+		block := ""
+		var order []string
+		for i := range uniq {
+			p := uniq[(i+rot)%len(uniq)]
+			block += fmt.Sprintf("    - option: %s\n      value: %s\n", p.name, p.yaml)
+			order = append(order, p.name)
+		}
+		cse := fmt.Sprintf("platform options block order=%v", order)
+		w.Case("", cse)
+		var got snap
+		var err error
+		func() {
+			defer func() {
+				if r := recover(); r != nil {
+					err = fmt.Errorf("PANIC: %v", r)
+				}
+			}()
+			pl, e := platform.NewPlatform([]byte(platformYAML(block)), "host")
+			if e != nil {
+				err = e
+				return
+			}
+			d, e := pl.GetNetworkDriver()
+			if e != nil {
+				err = e
+				return
+			}
+			got = snap{}
+			snapGeneric(got, d.Driver)
+		}()
+		if err != nil {
+			w.Violate("c19:platform-options-block-rejected", cse+": "+err.Error(), cse)
+			continue
+		}
+		for _, p := range uniq {
+			if got[p.key] != p.want {
+				w.Violate("c19:platform-option-no-effect-in-block:"+p.name, fmt.Sprintf("%s: %s = %q want %q", cse, p.key, got[p.key], p.want), cse)
+			}
+		}
+	}
 	for _, p := range list {
 		block := fmt.Sprintf("    - option: %s\n      value: %s\n", p.name, p.yaml)
 		for _, withUser := range []bool{false, true} {
